@@ -161,6 +161,7 @@ fn run_case(id: String, seed: u64, n: usize, k: usize, nq: usize, out: &mut Case
                 _ => "plain",
             };
             let fam = *family;
+            c03::set_layout(&reals[ri]);
             let v = qcheck::check_diag(q, &gt.table, db, &mut probe, out, oracle, "layout", &case, &|mq, mode, got, t| match fam {
                 "filter" => c03::diagnose(mq, mode, got, t),
                 "groupby" => c04::diagnose_ctx(mq, mode, got, t, long),
